@@ -53,13 +53,16 @@ func openSession(pkgDirs []string) (*Session, error) {
 	return s, nil
 }
 
-func (s *Session) verifyFn(key string) (*FnTx, error) {
+func (s *Session) verifyFn(key string) (*FnTx, error) { return s.verifyFnInstance(key, "") }
+
+func (s *Session) verifyFnInstance(key, instance string) (*FnTx, error) {
 	fn := s.fns[key]
 	if fn == nil {
 		return nil, fmt.Errorf("contract target missing: %s", key)
 	}
 	c := s.cs.Fns[key]
 	tx := newFnTx(s.ld, s.cs, fn, c)
+	tx.instance = instance
 	if err := tx.run(); err != nil {
 		return tx, err
 	}
@@ -71,6 +74,7 @@ func cmdFn(args []string) int {
 	timeout := fs.Int("timeout", 10, "solver timeout (s)")
 	keep := fs.String("keep", "", "directory to keep smt files")
 	dump := fs.Bool("ssa", false, "dump SSA")
+	inst := fs.String("instance", "", "bounded instance name")
 	pk := fs.String("pkgs", "", "comma separated package dirs (default all)")
 	fs.Parse(args)
 	dirs := allPkgDirs()
@@ -96,7 +100,7 @@ func cmdFn(args []string) int {
 				fn.WriteTo(os.Stdout)
 			}
 		}
-		tx, err := s.verifyFn(key)
+		tx, err := s.verifyFnInstance(key, *inst)
 		if err != nil {
 			fmt.Println("ERROR", err)
 			rc = 2
